@@ -81,20 +81,23 @@ def flag_sets(kind, orders=(1, 2, 4, 6)):
 
 def bank_lattice(kinds, nfs, rates, orders=(1, 2, 4, 6), scales=SCALES):
     """classes x scales x num_filts x rate x (low, high) x every flag combination.
-    The octave scale is undefined at 0 Hz, so it is paired with low_hz > 0 only."""
+    A scale is a name or a dict with parameters.  The octave scale is undefined at 0 Hz, so it
+    is paired with low_hz > 0 only."""
     out = []
     for kind in kinds:
         for sc in (("mel",) if kind == "fbank" else scales):
+            if sc == "octave":
+                sc = {"name": "octave", "low_hz": 20.0}
+            scname = sc if isinstance(sc, str) else sc["name"]
             for nf in nfs:
                 for rate in rates:
                     for low, high in ranges(rate):
-                        if sc == "octave" and low <= 0:
+                        if scname == "octave" and low <= 0:
                             continue
                         for fl in flag_sets(kind, orders):
                             b = dict(name=kind, num_filts=nf, low_hz=low, sampling_rate=rate)
                             if kind != "fbank":
-                                b["scaling_function"] = (
-                                    {"name": "octave", "low_hz": 20.0} if sc == "octave" else sc)
+                                b["scaling_function"] = sc
                             if high is not None:
                                 b["high_hz"] = high
                             b.update(fl)
@@ -102,10 +105,19 @@ def bank_lattice(kinds, nfs, rates, orders=(1, 2, 4, 6), scales=SCALES):
     return out
 
 
-def tier_lattice(tier, kinds=("tri", "fbank", "gabor", "gammatone"), orders=(1, 2, 4, 6)):
-    if tier == "quick":
-        return bank_lattice(kinds, (1, 3, 11), (1000, 8000, 16000), orders)
-    return bank_lattice(kinds, (1, 2, 3, 5, 11), (1000, 8000, 16000), orders)
+ALL_KINDS = ("tri", "fbank", "gabor", "gammatone")
+RATES = (1000, 8000, 16000)
+EXTRA_SCALES = ({"name": "linear", "low_hz": 10.0, "slope_hz": 0.5}, {"name": "octave", "low_hz": 7.5})
+
+
+def tier_lattice(tier, kinds=ALL_KINDS, orders=(1, 2, 4, 6)):
+    """quick: the lattice of DESIGN.md section 3 (C05) in full.  thorough adds large banks (23 and 40
+    filters at 8 / 16 kHz) and two re-parameterised scales."""
+    out = bank_lattice(kinds, (1, 2, 3, 5, 11), RATES, orders)
+    if tier == "thorough":
+        out += bank_lattice(kinds, (23, 40), (8000, 16000), orders)
+        out += bank_lattice([k for k in kinds if k != "fbank"], (3, 11), RATES, orders, scales=EXTRA_SCALES)
+    return out
 
 
 def bank_tags(b):
@@ -144,6 +156,20 @@ def documented_span(b, lay, i):
         return hi - lo
     return ref.ideal_span_hz(b["name"], lo, hi, b["sampling_rate"], eps(), erb=b.get("erb", False),
                              l2=b.get("scale_l2_norm", False), order=b.get("order", 4))
+
+
+# ---------------------------------------------------------------- constructible
+
+
+@quiet
+def _constructible(b):
+    """valid configuration => a bank; a raising constructor is counted (trivial point, the
+    exception text goes to the evidence samples), it is not a violation of C05"""
+    r = build(b)
+    if r[0] == "ok":
+        return core.result([], obs="constructed", evals=1, nontrivial_count=1)
+    return core.result([], nontrivial=False, obs="unconstructible:%s:%s" % (r[1], r[2][:80]), evals=1,
+                       nontrivial_count=0, sample=dict(unconstructible=b, raised="%s: %s" % (r[1], r[2])))
 
 
 # ---------------------------------------------------------------- layout
@@ -471,17 +497,22 @@ def _replay_bank(fn):
 def subchecks(tier, seed):
     banks = tier_lattice(tier)
     resp_banks = list(banks)
-    if tier == "thorough":
+    if tier == "quick":
         # the narrow filters of large banks are what lies inside the "< rate/2" domain for low orders
-        resp_banks += bank_lattice(("tri", "fbank", "gabor", "gammatone"), (23, 40), (8000, 16000))
-    else:
+        # (the thorough lattice contains them anyway)
         resp_banks += bank_lattice(("gabor", "gammatone"), (40,), (16000,), scales=("mel",))
     tri_banks = [b for b in banks if b["name"] in ("tri", "fbank")]
     cap = IR_CAP[tier]
-    axes = dict(bank=sorted(CLASSNAME), scale=list(SCALES), num_filts=sorted(set(b["num_filts"] for b in banks)),
+    axes = dict(bank=sorted(CLASSNAME), scale=list(SCALES) + (list(EXTRA_SCALES) if tier == "thorough" else []), num_filts=sorted(set(b["num_filts"] for b in banks)),
                 rate=[1000, 8000, 16000], low_high="(0,None) (20,None) (100,0.8 Nyq) (0,Nyq); octave: low>0",
                 flags="analytic | erb x scale_l2_norm (x order {1,2,4,6} x max_centered)")
     return [
+        core.SubCheck(
+            "constructible", banks, _constructible,
+            "every valid configuration of the lattice is handed to the constructor; non-trivial = a bank "
+            "was built. A raising constructor is counted here (points - nontrivial = unconstructible, "
+            "exception text in the samples) and is not a violation: C05 speaks about the filters of a "
+            "bank that exists", axes=axes),
         core.SubCheck(
             "layout", banks, _layout,
             "every bank of the lattice: centers_hz (and the triangular banks' supports_hz) against the "
@@ -501,7 +532,7 @@ def subchecks(tier, seed):
             "one grid step, |H|^2 in [0.5 - 4 eps, 10^-0.3 + 4 eps] at both band edges (erb=False), ERB = "
             "edge spacing +- 1%% (erb=True); DTFT of a wide impulse response and get_frequency_response. "
             "non-trivial = documented support spans < rate/2 (others are outside the property's domain)",
-            axes=dict(axes, extra_num_filts="40 (quick: mel 16 kHz) / 23, 40 (thorough)", ir_cap=cap),
+            axes=dict(axes, extra_num_filts="quick: + 40 filters (mel, 16 kHz, Gabor / gammatone)", ir_cap=cap),
             replay=_replay_bank(lambda b: _response(b, cap))),
         core.SubCheck(
             "reject", reject_points(tier), _reject,
